@@ -1041,6 +1041,15 @@ package hashgraph
 //@   loop 1 invariant[memo] h.MemoOK()
 //@   loop 2 invariant[memo] h.MemoOK()
 //@   loop 2 invariant[above] i > r
+// "in the FIRST round where all the famous witnesses have received it, if all earlier rounds have the fame of all
+// witnesses decided": every round strictly between the event's round and the one examined now was found decided (or
+// lies at or below the lower bound, where fame is never decided again).
+//@   loop 2 invariant[earlier-decided] forall k int :: r < k && k < i ==> (__in(k, G_rounds(h.Store)) && G_rounds(h.Store)[k] != nil && G_rounds(h.Store)[k].decided) || (h.roundLowerBound != nil && *h.roundLowerBound >= k)
+//@   loop 2 invariant[not-yet] !received
+//@   call SetRoundReceived assert[earlier-decided] forall k int :: RoundV(h, x) < k && k < i ==> (__in(k, G_rounds(h.Store)) && G_rounds(h.Store)[k] != nil && G_rounds(h.Store)[k].decided) || (h.roundLowerBound != nil && *h.roundLowerBound >= k)
+// an event leaves the undetermined queue only by being received: the event examined by the previous iteration is
+// either the last element of the new queue or has a round-received now (holds at every iteration, hence for all)
+//@   loop 1 invariant[kept-or-received] __idx() > 0 ==> (len(newUndeterminedEvents) > 0 && newUndeterminedEvents[len(newUndeterminedEvents)-1] == old(h.UndeterminedEvents)[__idx()-1]) || (__in(old(h.UndeterminedEvents)[__idx()-1], G_events(h.Store)) && G_events(h.Store)[old(h.UndeterminedEvents)[__idx()-1]] != nil && G_events(h.Store)[old(h.UndeterminedEvents)[__idx()-1]].roundReceived != nil)
 //@   loop 3 invariant[memo] h.MemoOK()
 //@   ensures[only-undetermined] ret0 == nil ==> (forall k int :: 0 <= k && k < len(h.UndeterminedEvents) ==> (exists j int :: 0 <= j && j < len(old(h.UndeterminedEvents)) && h.UndeterminedEvents[k] == old(h.UndeterminedEvents)[j]))
 //@   loop 1 invariant[queue] !(newUndeterminedEvents == nil) && __eq(h.UndeterminedEvents, old(h.UndeterminedEvents))
